@@ -213,6 +213,36 @@ let () =
                | Some ((a', l), r) -> let lw' = int_of_n l + lw and rw' = int_of_n r + lw in
                  go a' lw' rw' (k - 1) (acc ^ Printf.sprintf " %d:%d" lw' rw') in
            print_endline ("w" ^ go a1 0 (n - 1) (int_of_string passes) ""))
+      | ["wallspost"; which; pat; n; seed; p1; p2] ->
+        (* evaluates the named hypothesis strided_partition_post (Util/SortCorrect.v) on the top-level node:
+           the partition loop returns, has only rearranged the array, everything left of the left wall is <= pivot,
+           everything right of the right wall is > pivot, right wall < len *)
+        let n = int_of_string n and pat = int_of_string pat in
+        let ty = if which = "aligned" then 'u' else 'd' in
+        let arr = gen ty pat n (Int64.of_string seed) in
+        let a0 = of_list (Array.to_list arr) in
+        let leb = leb_of ty in
+        let prm = if which = "qt" then qt_params (n_of_int (int_of_string p1))
+          else qutil_params (n_of_int (int_of_string p1)) (n_of_int (int_of_string p2)) in
+        let len = n_of_int n in
+        (match trimedian leb oob len a0 N0 len with
+         | None -> print_endline "p none-trimedian"
+         | Some a1 ->
+           let pivot = aget oob a1 (n_of_int (n / 2)) in
+           (match walls leb oob len prm true (nat_of_int (n + 1)) a1 N0 (prm.p_thresh len) pivot N0 (n_of_int (n - 1)) with
+            | None -> print_endline "p none-walls"
+            | Some ((a2, lw), rw) ->
+              let lw = int_of_n lw and rw = int_of_n rw in
+              let get a i = aget oob a (n_of_int i) in
+              let bad = ref "" in
+              if not (rw < n) then bad := "rightwall>=len";
+              for i = 0 to (min lw n) - 1 do if not (leb (get a2 i) pivot) then bad := Printf.sprintf "a[%d]>pivot left of leftwall %d" i lw done;
+              for i = rw + 1 to n - 1 do if leb (get a2 i) pivot then bad := Printf.sprintf "a[%d]<=pivot right of rightwall %d" i rw done;
+              let s1 = Array.init n (fun i -> get a1 i) and s2 = Array.init n (fun i -> get a2 i) in
+              Array.sort compare s1; Array.sort compare s2;
+              if s1 <> s2 then bad := "not a rearrangement";
+              if !bad = "" then Printf.printf "p ok %d %d %s\n" lw rw (if lw <> 0 || rw <> n - 1 then "entered" else "not-entered")
+              else Printf.printf "p VIOLATED %s\n" !bad))
       | "ap" :: nworkers :: evs ->
         let nw = int_of_string nworkers in
         let parse tok =
